@@ -21,10 +21,15 @@ for n in names:
     if rc != 0:
         print(n, "patch does not apply", out[-300:]); continue
     t0 = time.time()
+    # the evidence file describes the unchanged tree: keep it, a run against a seeded change must not replace it
+    ev = f"{V}/evidence/{pid}.json"
+    saved = open(ev).read() if os.path.exists(ev) else None
     try:
         rc, out = sh(f"./check {pid} --tier quick", timeout=2400)
     finally:
         sh("git -C /repo checkout -- . && git -C /repo clean -fdq src tests")
+        if saved is not None:
+            open(ev, "w").write(saved)
     viol = [l for l in out.splitlines() if l.startswith("VIOLATION")]
     detail = [l for l in out.splitlines() if l.startswith("  ")][:4]
     meta["check"] = {"cmd": f"./check {pid} --tier quick", "exit": rc, "detected": rc == 1 and bool(viol), "violations": viol[:5],
